@@ -122,6 +122,25 @@ PROPS["C03"] = {
     "assumptions": [],
 }
 
+PROPS["C10"] = {
+    "units": [],
+    "kani": [
+        {"crate": "actix-router", "harness": "kc_hex_pair_to_char_full_domain", "kind": "complete", "quick": True, "timeout": 900,
+         "what": "quoter::hex_pair_to_char: for all 65536 byte pairs the result is the positional hex value, None unless both are hex digits"},
+        {"crate": "actix-router", "harness": "kc_ascii_bitmap_set_get", "kind": "complete", "quick": True, "timeout": 900,
+         "what": "quoter::AsciiBitmap: set_bit then bit_at agree for every ASCII byte and arbitrary prior table contents; every other ASCII bit is unchanged"},
+        {"crate": "actix-router", "harness": "kb_requote_len3", "kind": "bounded", "quick": False, "timeout": 1800, "bound": "every byte string of length exactly 3 (2^24 inputs), default protected set",
+         "what": "Quoter::requote == reference partial percent-decoder (decode every valid non-protected %XY, copy everything else, None iff nothing decoded)"},
+        {"crate": "actix-router", "harness": "kb_requote_len4", "kind": "bounded", "quick": False, "timeout": 3000, "bound": "every byte string of length exactly 4 (2^32 inputs), default protected set",
+         "what": "Quoter::requote == reference partial percent-decoder"},
+    ],
+    "technique": "Kani function-level harnesses compiled into the real actix-router crate: loop-free helpers over their full input domain (complete), the percent-decoder against a reference decoder for all inputs of a fixed small length (bounded stand-in, not counted as proved)",
+    "level_text": "proof (CBMC, bit-precise, full input domain) for the two loop-free helpers the partial percent-decoder is built from; the decoder loop itself is only checked for all inputs of length 3 and 4 (thorough tier) and that is reported as a bounded check; pattern matching proper is not decided",
+    "level_note": "Verus cannot express the regex-backed matching (is_match / find_match / capture_match_info call into the regex crate) nor str-level code; Kani aborts (internal compiler error in kani-compiler on ResourceDef harnesses, out-of-memory/time-out on regex). Only the percent-decoder clause of the property is covered, and only its helpers at proof level.",
+    "not_decided": ["the three match queries agree and match the pattern's language (regex crate semantics)", "prefixes stop only at a segment boundary (regex suffix built by ResourceDef::parse)", "captured values are exactly the matched substrings", "build/parse round trip (resource_path_from_iter)", "percent-decoder for inputs longer than the bounded harnesses"],
+    "assumptions": [],
+}
+
 _PENDING = "not claimed yet: contracts for this property are still under construction in this session"
 NOT_APPLICABLE = {("C%02d" % i): _PENDING for i in range(1, 20)}
 NOT_APPLICABLE["C06"] = "every clause is about instants (deadlines vs. arrival times, runtime timer ordering); no function contract expresses virtual time or scheduler ordering (DESIGN.md section 4 C06)"
